@@ -56,7 +56,8 @@ def run(ctx):
         "traces_validated_against_impl": len(hist), "evaluations": stats["logs_compared"],
         "distinct_nontrivial": branching,
         "rule": "TLC-simulated derivation histories (derive With/WithGroup from any node, log any node, any order; 8 and 12 operations) "
-                "replayed on Nano/Text/JSON in history order and with concurrent sibling derivation, seeded attribute sizes 1..600 bytes; "
+                "replayed on Nano/Text/JSON in history order and with concurrent sibling derivation, seeded attribute sizes 1..600 bytes, records with and without own attributes, deferred values inside With groups "
+                "resolved against a harness-controlled epoch (the isolated replay gets attribute objects of its own); "
                 "non-trivial = histories in which some parent has several children",
         "exhaustive": False, "histories": len(hist), "stats": stats, "mismatches": len(mm),
         "model": "all trees up to %d derived nodes, every realloc capacity in {+0,+1,+2}" % (4 if q else 5),
